@@ -135,8 +135,8 @@ def t_float(size, x, i, xk):
 
 @template(n=((1, 3), (0, 4)), i=((-1, 3), (-1, 4)), b=((0, 3), (-1, 5)))
 def t_regsize_let(n, i, b):
-    return ["circuit", ["let", "n", n], ["register", "r", "n"], ["map", "s", "r", 0, b, None],
-            ["gate", "g1", AI("r", i)], ["gate", "g1", AI("s", i)]]
+    return ["circuit", ["let", "n", n], ["register", "r", "n"], ["map", "s", "r", 0, b, None], ["map", "w", "r"],
+            ["gate", "g1", AI("r", i)], ["gate", "g1", AI("s", i)], ["gate", "g1", AI("w", i)]]
 
 
 @template(size=((2, 3), (2, 4)), i=((0, 2), (-1, 4)), j=((0, 2), (-1, 4)), k=((0, 2), (0, 3)))
@@ -230,7 +230,7 @@ def t_macro_single(size, i, k):
 def t_shadow_reg(size, a, i):
     """a macro parameter that shadows a map alias, and one that shadows the register; the same gate on the same index
     occurs in a macro body (on the parameter) and in the main body (on the alias / register)"""
-    return ["circuit", ["register", "r", size], ["map", "t", "r", a, None, None],
+    return ["circuit", ["let", "la", a], ["register", "r", size], ["map", "t", "r", "la", None, None],
             ["macro", "m", "t", "k", ["sequential_block", ["gate", "g1", AI("t", 0)], ["gate", "g1", AI("t", "k")], ["gate", "h1", AI("t", 0), 0.5]]],
             ["macro", "w", "r", ["sequential_block", ["gate", "g1", AI("r", 0)]]],
             ["gate", "g1", AI("t", 0)], ["gate", "h1", AI("t", 0), 0.5], ["gate", "g1", AI("t", i)],
